@@ -319,6 +319,14 @@ impl HllSketch {
         let compact = (flags & COMPACT_FLAG_MASK) != 0;
         let ooo = (flags & OUT_OF_ORDER_FLAG_MASK) != 0;
 
+        // a coupon list or table never has more slots than the sketch has registers
+        if extract_cur_mode(mode_byte) != CUR_MODE_HLL && lg_arr > lg_config_k.max(3) {
+            return Err(Error::deserial(format!(
+                "lg_arr must be at most {}, got {lg_arr}",
+                lg_config_k.max(3)
+            )));
+        }
+
         // Deserialize based on mode
         let mode =
             match extract_cur_mode(mode_byte) {
